@@ -216,6 +216,9 @@ pub fn run(ctx: &Ctx) -> i32 {
     let is14 = ctx.prop == "C14";
     let mut cases = fam_for(tier, &ctx.prop);
     cases.extend(dl_grid_cases().into_iter().filter(|c| c.g.loop_number(c.g.full()) <= 3));
+    // size ladder: beyond 6 loops (L matrix leaves its inline storage), 8 edges, 64 signature entries
+    let n_regular = cases.len();
+    cases.extend(large_cases(tier));
     let roles_all = Roles { u: true, xi: true, p: true, ab: true, xi_moderate: true, xi_ladder: false };
     let mut acc = par_for(cases.len(), |i, acc| {
         let case = match Case::new(&cases[i]) {
@@ -243,7 +246,11 @@ pub fn run(ctx: &Ctx) -> i32 {
                 return;
             }
         }
-        let sectors = all_sectors(ne);
+        let sectors = if i >= n_regular { sector_subset(ne, false) } else { all_sectors(ne) };
+        if i >= n_regular {
+            acc.inc("large_cases");
+            acc.hist("large_case_shape", &format!("{}-E{}L{}D{}", case.spec.label, ne, case.nl, case.g.dim));
+        }
         let max_sectors = tier.pick(6, 24);
         let sstride = (sectors.len() + max_sectors - 1) / max_sectors;
         let st_meta = Settings::META;
@@ -257,7 +264,29 @@ pub fn run(ctx: &Ctx) -> i32 {
             }
             acc.inc("sectors");
             let k = if ne <= 3 { 2 } else { 1 };
-            let pts = sector_points(&case, order, tier.pick(k, 2), &roles_all);
+            let mut pts = sector_points(&case, order, tier.pick(k, 2), &roles_all);
+            if is14 {
+                // underflow answers: a xi so small that the running product of the parameters becomes exactly zero (or xi = 0):
+                // the remaining coordinates must still be read, each in its own role; alone and combined with one more deviation
+                let base0 = pts[0].0.clone();
+                for i in (1..gr.nf).step_by(2) {
+                    for v in [1e-300, 5e-324, 0.0] {
+                        let mut x = base0.clone();
+                        x[i] = v;
+                        pts.push((x.clone(), 1));
+                        if ne <= 4 {
+                            for j in 0..gr.dim {
+                                if j == i {
+                                    continue;
+                                }
+                                let mut y = x.clone();
+                                y[j] = if (base0[j] - 0.25).abs() < 1e-3 { 0.75 } else { 0.25 };
+                                pts.push((y, 2));
+                            }
+                        }
+                    }
+                }
+            }
             let base = &pts[0].0;
             let mut census: HashMap<(Vec<usize>, bool), Vec<u64>> = HashMap::new();
             // 2-safety tables
